@@ -1249,6 +1249,9 @@ func (st *Runtime) evalCommandExpression(node *CommandNode) (reflect.Value, bool
 			}
 			return ret, false
 		}
+		if len(node.Exprs) == 0 {
+			node.BaseExpr.errorf("command %q is called but is %s, not a function", node.BaseExpr, term.Type())
+		}
 		node.Exprs[0].errorf("command %q has arguments but is %s, not a function", node.Exprs[0], term.Type())
 	}
 	return term, false
